@@ -163,6 +163,8 @@ class HTTP(BaseComponent):
         if res.stream and res.body:
             try:
                 data = next(res.body)
+                while not data:  # Skip over any null byte sequences
+                    data = next(res.body)
             except StopIteration:
                 data = None
             self.fire(stream(res, data))
